@@ -378,9 +378,10 @@ TEXT = {
     'S5': 'inside a loop over the positions of a sparse vector the vector is never subscripted by index with the position',
     'S6': 'an else-if chain (or two consecutive ifs) with lower/upper (or sign) mirror-image conditions has mirror-image arms',
     'S8': 'when one arm of a ?: on the optimisation sense is a negation, it negates exactly the other arm (`min ? e : -e`)',
+    'S9': 'a two-parameter comparator whose parameters are interchangeable (ch1/ch2, a/b, x/y) applies the same expression to both',
     'S7': 'two member functions whose names are lower/upper (lhs/rhs, min/max, ...) mirror images and whose bodies have the same shape are mirror images',
 }
-FLOORS = {'S1': 350, 'S2': 60, 'S4': 260, 'S5': 150, 'S6': 45, 'S7': 90, 'S8': 10}
+FLOORS = {'S1': 350, 'S2': 60, 'S4': 260, 'S5': 150, 'S6': 45, 'S7': 90, 'S8': 10, 'S9': 4}
 SENSEPAT = re.compile(r'MINIMIZE|MAXIMIZE|\bmaximizing\b|\bminimizing\b|maxSense|spxSense|m_thesense')
 SPARSE = re.compile(r'^(const )?(class )?(soplex::)?(SVectorBase|SSVectorBase|DSVectorBase|UnitVectorBase)<')
 PERMNAME = re.compile(r'perm', re.I)
@@ -433,6 +434,22 @@ def _scan(fb):
                 return
             res[rule].append((f, key(base), '%s:%d' % (f.file, node.l), ok, detail))
 
+        # ---- S9: symmetric comparators
+        if len(f.params) == 2 and f.params[0][1] == f.params[1][1] and f.params[0][0] and f.params[1][0] \
+                and len(f.params[0][0]) == len(f.params[1][0]) and f.params[0][0][:-1] == f.params[1][0][:-1] and f.params[0][0] != f.params[1][0]:
+            for n in f.nodes:
+                if n.k != 'ReturnStmt' or not n.c:
+                    continue
+                cp = cmp_parts(strip(n.kids[0]))
+                if not cp:
+                    continue
+                ua = set(x.n for x in cp[1].walk() if x.k == 'DeclRefExpr' and x.dk == 'parm')
+                ub = set(x.n for x in cp[2].walk() if x.k == 'DeclRefExpr' and x.dk == 'parm')
+                if len(ua) == 1 and len(ub) == 1 and ua != ub:
+                    ta = re.sub(r'\b%s\b' % re.escape(list(ua)[0]), '@', render(cp[1]))
+                    tb = re.sub(r'\b%s\b' % re.escape(list(ub)[0]), '@', render(cp[2]))
+                    put('S9', 'compare(%s,%s)' % (f.params[0][0], f.params[1][0]), n, ta == tb, 'both sides are %s' % ta[:40] if ta == tb else
+                        '`%s` compares %s of one argument with %s of the other: the comparison depends on which argument comes first' % (render(strip(n.kids[0]))[:70], ta[:30], tb[:30]), 'S9')
         for n in f.nodes:
             p = cmp_parts(n) if n.k in ('BinaryOperator', 'CXXOperatorCallExpr') else None
             if p and not f.in_assert(n):
@@ -585,7 +602,7 @@ def _scan(fb):
                               'bodies are mirror images' if not why else ('listed as asymmetric: ' + acc) if acc else
                               '%s (line %d) and %s (line %d) have the same shape, but %s' % (f.short, f.line, gname, g.line, why[0])))
     _reference(comparable, nc)
-    need = {'S1', 'S2', 'S4', 'S5', 'S6', 'S7', 'S8'}
+    need = {'S1', 'S2', 'S4', 'S5', 'S6', 'S7', 'S8', 'S9'}
     if not need <= ctl:
         raise AnalysisBroken('shape rules: positive controls did not fire: %s' % sorted(need - ctl))
     for r, fl in FLOORS.items():
@@ -671,8 +688,10 @@ def run(pid, fb, rep, only=None):
         if only and s not in only:
             continue
         rid = 'R%s.%s' % (nn, s)
-        rep.rule(rid, TEXT[s] + ' (generic shape rule over the functions this property owns)', floor=1)
         mine = [t for t in res[s] if owner(t[0]) == pid]
+        if not mine:
+            continue
+        rep.rule(rid, TEXT[s] + ' (generic shape rule over the functions this property owns)', floor=1)
         for f, key, where, ok, detail in mine:
             if ok:
                 rep.ok(rid, key, where, detail)
